@@ -161,10 +161,10 @@ Proof.
   destruct (s_aborted s); [reflexivity|apply exec_pkg_removals].
 Qed.
 
-Lemma request_removals cf now st mid s a : s_removals (request cf now st mid s a) = s_removals s.
+Lemma request0_removals cf now st mid s a : s_removals (request0 cf now st mid s a) = s_removals s.
 Proof.
-  unfold request. destruct (get_market mid (s_markets s)) as [m|]; [|reflexivity].
-  destruct a as [name sel sd t mv|name red|name p|name price mv].
+  unfold request0. destruct (get_market mid (s_markets s)) as [m|]; [|reflexivity].
+  destruct a as [name sel sd t mv|name red|name p|name price mv|mid' a']; [| | | |reflexivity].
   - destruct (negb (market_open m)); reflexivity.
   - destruct (get_order name (mk_orders m)) as [o|]; [|reflexivity].
     destruct (negb (order_validation_ok o) || negb (market_open m)); [reflexivity|].
@@ -181,6 +181,9 @@ Proof.
     destruct (so_bet o); [|reflexivity]. destruct (so_type o); try reflexivity;
     (destruct (so_price o =? price); [reflexivity|]; destruct (negb (status_eqb (so_status o) SExecutable)); reflexivity).
 Qed.
+
+Lemma request_removals cf now st mid s a : s_removals (request cf now st mid s a) = s_removals s.
+Proof. unfold request. destruct a; apply request0_removals. Qed.
 
 Lemma requests_removals cf now st mid : forall acts s, s_removals (fold_left (request cf now st mid) acts s) = s_removals s.
 Proof. induction acts as [|a acts IH]; intros s; cbn [fold_left]; [reflexivity|]. rewrite IH. apply request_removals. Qed.
